@@ -3,7 +3,7 @@ by reading the function it names; `why` states the necessary condition."""
 
 from __future__ import annotations
 
-from .rg import Gate, Pass
+from .rg import Form, Gate, Must, Pass
 
 P = {
     "map": "prosemirror/transform/map.py",
@@ -33,8 +33,16 @@ def _fn(short: str) -> str:
     return f"{P[mod]}::{q}"
 
 
-def G(props: str, fn: str, kind: str, target: str, needs: list, why: str, min: int = 1, max: int | None = None, rule: str = "RG") -> Gate:
-    return Gate(tuple(props.split()), _fn(fn), kind, target, needs, why, min, max, rule)
+def G(props: str, fn: str, kind: str, target: str, needs: list, why: str, min: int = 1, max: int | None = None, rule: str = "RG", forbid: tuple = (), exact: bool = False) -> Gate:
+    return Gate(tuple(props.split()), _fn(fn), kind, target, needs, why, min, max, rule, tuple(forbid), exact)
+
+
+def F(props: str, fn: str, kind: str, target: str, form: str, why: str, min: int = 1) -> Form:
+    return Form(tuple(props.split()), _fn(fn), kind, target, form, why, min)
+
+
+def M(props: str, fn: str, under: list, contains: str, why: str) -> Must:
+    return Must(tuple(props.split()), _fn(fn), under, contains, why)
 
 
 def PS(props: str, fn: str, kind: str, target: str, through: str, why: str, min: int = 1) -> Pass:
@@ -62,4 +70,151 @@ TABLE: list = [
     G("C08", "map::Mapping.append_mapping", "expr", r"^start_size \+ mirr$", ["mirr is not None", "mirr < i"], "mirrors of an appended mapping are re-based by the old length and registered once, from the later map"),
     G("C08", "map::Mapping.append_mapping_inverted", "expr", r"^total_size - mirr - 1$", ["mirr is not None", "mirr > i"], "inverted appending registers the mirror from the map that comes later in the reversed order"),
     G("C08", "map::Mapping.set_mirror", "stmt", r"^self\.mirror = \[\]$", ["not self.mirror"], "the pair array is created once and never reset"),
+
+    # ------------------------------------------------ model/replace.py (C01 C02)
+    G("C01 C02", "repl::insert_into", "ret", r"^content(?!\.replace_child)", [["not parent", "parent.can_replace(index, index, insert)"]], "the gap content lands in a node only after that node accepted it (can_replace), unless it lands at the top level of the slice"),
+    G("C01 C02", "repl::insert_into", "ret", r"^content\.replace_child\(index, child\.copy\(inner\)\)$", ["inner"], "a rebuilt child is returned only when the insertion below it succeeded"),
+    G("C01 C02", "repl::replace", "ret", r"^replace_outer\(", ["slice.open_start <= from_.depth", "from_.depth - slice.open_start == to.depth - slice.open_end"], "both open-depth consistency errors are raised before any rebuild"),
+    G("C01 C02", "repl::close", "ret", r"^node\.copy\(content\)$", ["node.type.valid_content(content)"], "close() returns a rebuilt node only with valid content"),
+    G("C01 C02", "repl::check_join", "stmt", r"^raise ReplaceError", ["not sub.type.compatible_content(main.type)"], "incompatible joins raise the replace error"),
+    F("C01 C02", "repl::replace_outer", "ret", r".", r"^(close\(|node\.copy\(node\.content\.replace_child\(index, inner\)\)$)", "every node leaving replace_outer is validated by close() or is the audited same-type pass-through of an inner result"),
+    F("C01 C02", "repl::replace_three_way", "arg:0", r"^add_node\(", r"^close\(", "rebuilt nodes enter a result list only through close()", min=3),
+    F("C01 C02", "repl::replace_two_way", "arg:0", r"^add_node\(", r"^close\(", "rebuilt nodes enter a result list only through close()"),
+    F("C01 C02", "repl::joinable", "stmt", r"^check_join\(", r"^check_join\(node, after\.node\(depth\)\)$", "joinable checks the two nodes it joins"),
+    G("C02", "repl::add_node", "stmt", r"^target\[last\] = child\.with_text\(", ["last >= 0", "pm_node.is_text(child)", "child.same_markup(target[last])"], "text is merged only into an adjacent text node with the same markup"),
+    Pass(("C01", "C02"), "prosemirror/model/replace.py::replace_three_way", "call", r"^close\(open_start, replace_three_way\(", r"check_join\(open_start, open_end\)", "the two open sides are joined into one node only after check_join accepted the pair"),
+    # ------------------------------------------------ transform/step.py, replace_step.py (C01 C03 C16 C17)
+    G("C01", "rstep::ReplaceStep.apply", "ret", r"^StepResult\.from_replace\(", [["not self.structure", "not content_between(doc, self.from_, self.to)"]], "a structure-flagged replace never overwrites content"),
+    G("C01", "rstep::ReplaceAroundStep.apply", "ret", r"^StepResult\.from_replace\(", [["not self.structure", "not content_between(doc, self.from_, self.gap_from)"], ["not self.structure", "not content_between(doc, self.gap_to, self.to)"], "not gap.open_start", "not gap.open_end", "inserted"], "a structure-flagged gap replace overwrites nothing, the gap is flat and its content fits"),
+    G("C17", "rstep::ReplaceStep.map", "ret", r"^ReplaceStep\(", [["not from_.deleted", "not to.deleted"]], "a replace step is dropped only when both ends were deleted"),
+    G("C17", "rstep::ReplaceAroundStep.map", "ret", r"^ReplaceAroundStep\(", [["not from_.deleted", "not to.deleted"], "gap_from >= from_.pos", "gap_to <= to.pos"], "a rebased gap step is kept iff the mapped gap still lies inside the mapped range"),
+    G("C17", "mstep::AddMarkStep.map", "ret", r"^AddMarkStep\(", [["not from_.deleted", "not to.deleted"], "from_.pos <= to.pos"], "a mark step is dropped only when swallowed"),
+    G("C17", "mstep::RemoveMarkStep.map", "ret", r"^RemoveMarkStep\(", [["not from_.deleted", "not to.deleted"], "from_.pos <= to.pos"], "a mark step is dropped only when swallowed"),
+    G("C17", "mstep::AddNodeMarkStep.map", "expr", r"^AddNodeMarkStep\(pos\.pos, self\.mark\)$", ["not pos.deleted_after"], "a node step survives unless the node after its position was deleted", exact=True),
+    G("C17", "mstep::RemoveNodeMarkStep.map", "expr", r"^RemoveNodeMarkStep\(pos\.pos, self\.mark\)$", ["not pos.deleted_after"], "a node step survives unless the node after its position was deleted", exact=True),
+    G("C17", "astep::AttrStep.map", "expr", r"^AttrStep\(pos\.pos, self\.attr, self\.value\)$", ["not pos.deleted_after"], "a node step survives unless the node after its position was deleted", exact=True),
+    G("C16", "rstep::ReplaceStep.merge", "ret", r"^ReplaceStep\(self\.from_, self\.to \+ \(other\.to - other\.from_\), slice, self\.structure\)$", ["isinstance(other, ReplaceStep)", "not other.structure", "not self.structure", "self.from_ + self.slice.size == other.from_", "not self.slice.open_end", "not other.slice.open_start"], "forward merge needs adjacency and closed glued sides"),
+    G("C16", "rstep::ReplaceStep.merge", "ret", r"^ReplaceStep\(other\.from_, self\.to, slice, self\.structure\)$", ["isinstance(other, ReplaceStep)", "not other.structure", "not self.structure", "other.to == self.from_", "not self.slice.open_start", "not other.slice.open_end"], "backward merge needs adjacency and closed glued sides"),
+    G("C16", "mstep::AddMarkStep.merge", "ret", r"^AddMarkStep\(min\(self\.from_, other\.from_\), max\(self\.to, other\.to\), self\.mark\)$", ["isinstance(other, AddMarkStep)", "other.mark.eq(self.mark)", "self.from_ <= other.to", "self.to >= other.from_"], "mark steps merge only for an equal mark (type and attributes) on overlapping or touching ranges"),
+    G("C16", "mstep::RemoveMarkStep.merge", "ret", r"^RemoveMarkStep\(min\(self\.from_, other\.from_\), max\(self\.to, other\.to\), self\.mark\)$", ["isinstance(other, RemoveMarkStep)", "other.mark.eq(self.mark)", "self.from_ <= other.to", "self.to >= other.from_"], "mark steps merge only for an equal mark (type and attributes) on overlapping or touching ranges"),
+    # ------------------------------------------------ mark_step.py / attr_step.py (C01 C04 C13)
+    G("C01 C13", "mstep::AddMarkStep.apply.iteratee", "ret", r"^node\.mark\(self\.mark\.add_to_set\(node\.marks\)\)$", [["not parent", "parent.type.allows_mark_type(self.mark.type)"], ["not parent", "node.is_atom"]], "a node is marked only when it is an inline leaf/text node whose parent allows the mark type"),
+    G("C01", "mstep::AddNodeMarkStep.apply", "ret", r"^StepResult\.from_replace\(", ["node"], "no node at the position fails the step"),
+    G("C01", "mstep::RemoveNodeMarkStep.apply", "ret", r"^StepResult\.from_replace\(", ["node"], "no node at the position fails the step"),
+    G("C01", "astep::AttrStep.apply", "ret", r"^StepResult\.from_replace\(", ["node"], "no node at the position fails the step"),
+    G("C04", "mstep::AddNodeMarkStep.invert", "ret", r"^AddNodeMarkStep\(self\.pos, node\.marks\[i\]\)$", ["node", "len(new_set) == len(node.marks)", "not node.marks[i].is_in_set(new_set)"], "the inverse re-adds exactly the mark that the added mark displaced (the one no longer in the new set)"),
+    G("C04", "mstep::AddNodeMarkStep.invert", "ret", r"^RemoveNodeMarkStep\(self\.pos, self\.mark\)$", [["not node", "len(new_set) != len(node.marks)"]], "adding a new mark is undone by removing it"),
+    G("C04", "mstep::RemoveNodeMarkStep.invert", "ret", r"^AddNodeMarkStep\(self\.pos, self\.mark\)$", ["node", "self.mark.is_in_set(node.marks)"], "removing a mark that was present is undone by adding it back"),
+    # ------------------------------------------------ transform.py (C04 C13 C12 C18)
+    G("C04 C13", "tr::Transform.add_mark.iteratee", "stmt", r"^removing\.to = end$", ["removing", "removing.to == start", "removing.mark.eq(marks[i])", "not marks[i].is_in_set(new_set)"], "a pending removal is extended only over the directly adjacent node and only for an equal mark (type and attributes)"),
+    G("C04 C13", "tr::Transform.add_mark.iteratee", "stmt", r"^adding\.to = end$", ["adding", "adding.to == start", "not mark.is_in_set(marks)", "parent", "parent.type.allows_mark_type(mark.type)"], "the pending add step is extended only over the directly adjacent node, where the mark is absent and allowed"),
+    G("C04 C13", "tr::Transform.add_mark.iteratee", "stmt", r"^adding = AddMarkStep\(start, end, mark\)$", ["not mark.is_in_set(marks)", "parent", "parent.type.allows_mark_type(mark.type)"], "a mark is added only where it is absent and the parent allows it"),
+    G("C04 C13", "tr::Transform.add_mark.iteratee", "stmt", r"^removing = RemoveMarkStep\(start, end, marks\[i\]\)$", ["not marks[i].is_in_set(new_set)"], "only marks displaced by the new mark are removed"),
+    G("C13", "tr::Transform.remove_mark.iteratee", "stmt", r"^found = m$", ["m['step'] == step - 1", "style.eq(m['style'])"], "a matched range is extended only from the directly preceding inline node and for an equal mark (type and attributes)"),
+    G("C13", "tr::Transform.clear_incompatible", "call", r"^repl_steps\.append\(ReplaceStep\(cur, end, Slice\.empty\)\)$", ["not allowed"], "only children the new type cannot hold are deleted"),
+    G("C13", "tr::Transform.clear_incompatible", "call", r"^self\.step\(RemoveMarkStep\(cur, end, child\.marks\[j\]\)\)$", ["allowed", "not parent_type.allows_mark_type(child.marks[j].type)"], "only marks the new parent type forbids are removed"),
+    G("C04", "tr::Transform.maybe_step", "call", r"^self\.add_step\(step, result\.doc\)$", ["not result.failed", "result.doc"], "nothing is recorded when a step is rejected"),
+    G("C04", "tr::Transform.step", "stmt", r"^raise TransformError", ["result.failed"], "step() raises exactly on a failed result"),
+    F("C12", "tr::Transform.lift", "arg:-1", r"^ReplaceAroundStep\(", r"^True$", "lift is a structure-flagged step (it may only change structure)"),
+    F("C12", "tr::Transform.wrap", "arg:-1", r"^ReplaceAroundStep\(", r"^True$", "wrap is a structure-flagged step"),
+    F("C12", "tr::Transform.split", "arg:-1", r"^ReplaceStep\(", r"^True$", "split is a structure-flagged step"),
+    F("C12", "tr::Transform.join", "arg:-1", r"^ReplaceStep\(", r"^True$", "join is a structure-flagged step"),
+    G("C18", "tr::Transform.replace_range", "stmt", r"^(preferred_target = d|target_depths\.insert\(1, -d\))$", ["not spec.get('isolating')"], "the preferred-depth search never walks out of an isolating ancestor", min=2),
+    # ------------------------------------------------ transform/replace.py (C11 C18)
+    G("C18 C11", "trepl::covered_depths", "call", r"^result\.append\(d\)$", ["not from__.node(d).type.spec.get('isolating')", "not to_.node(d).type.spec.get('isolating')"], "range expansion stops below an isolating ancestor: its depth is never reported as covered"),
+    G("C18 C11", "trepl::Fitter.find_fittable", "stmt", r"^start_depth = d$", ["node.type.spec.get('isolating')", "open_end <= d"], "the fitter does not open isolating nodes of the slice past their end"),
+    F("C11", "trepl::Fitter.place_nodes", "arg:0", r"^close_node_start\(", r"^next_\.mark\(type_\.allowed_marks\(next_\.marks\)\)$", "every placed node is filtered to the marks the frontier node type allows"),
+    G("C11", "trepl::Fitter.place_nodes", "stmt", r"^match = matches$", ["matches"], "the frontier match advances only through nodes it accepts"),
+    # ------------------------------------------------ structure.py (C12 C18)
+    G("C12 C18", "struct::lift_target", "stmt", r"^depth -= 1$", ["depth != 0", "not node.type.spec.get('isolating')", "can_cut(node, index, end_index)"], "the lift target search moves outward only through non-isolating nodes that can be cut", min=1),
+    G("C12", "struct::lift_target", "ret", r"^depth$", ["depth < range_.depth", "node.can_replace(index, end_index, content)"], "a lift depth is approved only if the parent there can hold the lifted content"),
+    G("C12 C18", "struct::can_split", "ret", r"^pos_\.node\(base\)\.can_replace_with\(", ["base >= 0", "not pos_.parent.type.spec.get('isolating')", "pos_.parent.can_replace(pos_.index(), pos_.parent.child_count)"], "a split is approved only inside a non-isolating parent whose tail can be cut off"),
+    G("C12 C18", "struct::can_split", "stmt", r"^d -= 1$", ["not node.type.spec.get('isolating')", "node.can_replace(index + 1, node.child_count)", "after.type.valid_content(rest)"], "every split level is non-isolating, can lose its tail, and the tail is valid content of the node after"),
+    G("C12", "struct::joinable", "ret", r"^a\.can_append\(b\)$", ["a", "b", "not a.is_leaf"], "only two existing nodes, the first not a leaf, can be joined"),
+    G("C12", "struct::join_point", "ret", r"^pos$", ["before", "not before.is_textblock", "joinable(before, after)", "pos_.node(d).can_replace(index, index + 1)"], "a join point is approved only where the two blocks are joinable and the parent accepts losing one child"),
+    G("C12", "struct::find_wrapping_inside", "ret", r"^inside$", ["inner_match", "inner_match.valid_end"], "an inner wrapping is approved only if the wrapped range is complete content of the innermost wrapper"),
+    G("C12", "struct::drop_point", "ret", r"^pos_\.(pos|before\(d \+ 1\)|after\(d \+ 1\))$", ["fits"], "a drop point is returned only where the content fits", min=3),
+    # ------------------------------------------------ model/node.py (C07 C09 C02)
+    G("C07", "node::Node.can_replace", "ret", r"^True$", ["two", "two.valid_end"], "a replacement is approved only if prefix + replacement + suffix ends in a valid end state"),
+    G("C07", "node::Node.can_replace", "ret", r"^False$", [["not two", "not two.valid_end", "not self.type.allows_marks(replacement.child(i).marks)"]], "a replacement is refused only for a content or mark reason", min=2),
+    F("C07", "node::Node.can_replace", "stmt", r"^one = ", r"^one = self\.content_match_at\(from_\)\.match_fragment\(replacement, start, end\)$", "the replacement sub-range start..end is matched from the state after the prefix"),
+    F("C07", "node::Node.can_replace", "stmt", r"^two = one", r"^two = one\.match_fragment\(self\.content, to\)$", "the suffix is matched from `to`"),
+    G("C07", "node::Node.can_replace_with", "expr", r"^end\.valid_end$", [["not marks", "self.type.allows_marks(marks)"], "end"], "a node type is approved only if its marks are allowed and the suffix still matches"),
+    G("C07", "node::Node.check", "stmt", r"^msg = f'Invalid collection of marks", ["not Mark.same_set(copy, self.marks)"], "check() rejects a mark set that differs from its canonical rebuild"),
+    M("C07", "node::Node.check", [], r"^copy = mark\.add_to_set\(copy\)$", "the canonical form of a mark set is rebuilt by folding add_to_set (which applies order, duplicates and exclusion)"),
+    G("C07", "node::Node.check", "stmt", r"^msg = f'Invalid content for node", ["not self.type.valid_content(self.content)"], "check() rejects invalid content"),
+    G("C02 C09", "node::TextNode.cut", "ret", r"^self$", ["from_ == 0", "to == text_length(self.text)"], "the whole-node shortcut is taken only for the whole UTF-16 range"),
+    G("C02", "node::Node.cut", "ret", r"^self$", ["from_ == 0", "to == self.content.size"], "the whole-node shortcut is taken only for the whole content range"),
+    G("C10 C02", "node::Node.copy", "ret", r"^self$", ["content == self.content"], "copy() returns the same node only for identical content"),
+    # ------------------------------------------------ model/fragment.py (C02 C09 C16)
+    G("C09 C12", "frag::Fragment.maybe_child", "expr", r"^self\.content\[index\]$", ["index >= 0"], "Python resolves a negative index instead of raising: the lookup must be bounded below"),
+    G("C02", "frag::Fragment.cut", "ret", r"^self$", ["from_ == 0", "to == self.size"], "the whole-fragment shortcut is taken only for the whole range"),
+    G("C02", "frag::Fragment.cut", "call", r"^result\.append\(child\)$", ["end > from_", "pos < to"], "exactly the children overlapping [from, to) are kept"),
+    G("C02", "frag::Fragment.cut", "stmt", r"^child = child\.cut\(", [["pos < from_", "end > to"]], "only children crossing a range boundary are cut"),
+    G("C02 C16", "frag::Fragment.append", "stmt", r"^content\[len\(content\) - 1\] = last\.with_text\(last\.text \+ first\.text\)$", ["pm_node.is_text(last)", "last.same_markup(first)"], "text at the seam is merged only for same-markup text nodes"),
+    G("C02 C16", "frag::Fragment.append", "ret", r"^self$", ["not other.size"], "appending an empty fragment is the identity"),
+    G("C02 C16", "frag::Fragment.append", "ret", r"^other$", ["not self.size", "other.size"], "appending to an empty fragment is the identity"),
+    G("C02", "frag::Fragment.replace_child", "ret", r"^self$", ["current == node"], "replace_child is the identity only for the same child"),
+    G("C09", "frag::Fragment.nodes_between", "expr", r"^f\(child, node_start \+ pos, parent, i\)$", ["end > from_", "pos < to"], "the callback sees exactly the children overlapping the range, at their absolute position"),
+    # ------------------------------------------------ model/mark.py, schema.py (C14 C07 C15)
+    G("C14", "mark::Mark.add_to_set", "ret", r"^set$", [["self.eq(other)", "other.type.excludes(self.type)"]], "the set is returned unchanged only if an equal mark is present or a present mark excludes the new one", min=2),
+    G("C14", "mark::Mark.add_to_set", "call", r"^copy\.append\(other\)$", ["not self.type.excludes(other.type)", "not other.type.excludes(self.type)", "not self.eq(other)", "copy is not None"], "exactly the marks the new one does not exclude are kept"),
+    G("C14", "mark::Mark.add_to_set", "stmt", r"^placed = True$", ["not placed", "other.type.rank > self.type.rank", "not self.type.excludes(other.type)"], "the new mark is inserted once, before the first kept mark of higher rank"),
+    F("C14", "mark::Mark.add_to_set", "ret", r".", r"^(set|copy)$", "add_to_set returns the unchanged input or the single-pass copy (every element was examined)"),
+    G("C14", "mark::Mark.add_to_set", "ret", r"^copy$", ["re:falsy\\(placed\\)|truthy\\(placed\\)"], "the copy is returned after the loop", min=1) if False else G("C14", "mark::Mark.add_to_set", "call", r"^copy\.append\(self\)$", ["not placed"], "the new mark is placed exactly once", min=2),
+    G("C14", "schema::NodeType.allowed_marks", "call", r"^copy\.append\(mark\)$", ["self.allows_mark_type(mark.type)", "copy is not None"], "exactly the allowed marks are kept, in order"),
+    G("C14", "schema::NodeType.allowed_marks", "stmt", r"^copy = marks\[0:i\]$", ["not self.allows_mark_type(mark.type)", "copy is None"], "the copy starts at the first disallowed mark"),
+    G("C14 C07", "schema::NodeType.allows_marks", "ret", r"^True$", ["self.mark_set is None"], "all marks are allowed only when the node type declares no restriction"),
+    F("C14 C07", "schema::NodeType.allows_marks", "ret", r"^all\(", r"^all\(\(self\.allows_mark_type\(mark\.type\) for mark in marks\)\)$", "a mark set is allowed iff every mark's type is allowed"),
+    F("C14 C07", "schema::NodeType.allows_mark_type", "ret", r".", r"^self\.mark_set is None or mark_type in self\.mark_set$", "a mark type is allowed iff there is no restriction or it is listed"),
+    G("C07", "schema::NodeType.valid_content", "ret", r"^True$", ["result", "result.valid_end"], "content is valid only if the whole child sequence ends in a valid end state"),
+    G("C07", "schema::NodeType.valid_content", "ret", r"^False$", [["not result", "not result.valid_end", "not self.allows_marks(content.child(i).marks)"]], "content is refused only for a content or mark reason", min=2),
+    G("C07", "schema::NodeType.create_checked", "ret", r"^Node\(", ["self.valid_content(content)"], "the checked constructor builds a node only from valid content"),
+    G("C14", "schema::Schema.__init__", "stmt", r"^type\.mark_set = gather_marks\(", ["mark_expr", "mark_expr != '_'"], "an explicit marks expression is resolved through gather_marks"),
+    G("C14", "schema::Schema.__init__", "stmt", r"^type\.mark_set = \[\]$", [["mark_expr == ''", "not type.inline_content"]], "no marks are allowed for an empty marks expression or block content"),
+    G("C14", "schema::Schema.__init__", "expr", r"^\[mark\]$", ["excl is None"], "a mark excludes itself by default", exact=True),
+    G("C14", "schema::Schema.__init__", "expr", r"^\[\]$", ["excl == ''", "excl is not None"], "an empty excludes declaration excludes nothing", min=1, max=3) if False else G("C14", "schema::Schema.__init__", "expr", r"^gather_marks\(self, excl\.split\(' '\)\)$", ["excl is not None", "excl != ''"], "an explicit excludes declaration is resolved through gather_marks"),
+    G("C14", "schema::gather_marks", "call", r"^found\.append\(mark\)$", [["mark", "name == '_'", "mark.spec.get('group')"]], "a name selects the mark of that name, all marks for '_', or the marks of that group", min=2),
+    # ------------------------------------------------ model/content.py (C06 C15)
+    Pass(("C06",), "prosemirror/model/content.py::ContentMatch.parse", "ret", r"^match$", r"check_for_dead_ends\(match, stream\)", "every compiled matcher is checked for dead ends before it is returned"),
+    G("C06", "content::ContentMatch.parse", "call", r"^stream\.err\('Unexpected trailing text'\)$", ["stream.next() is not None"], "trailing text after a complete expression is rejected"),
+    F("C06", "content::ContentMatch.parse", "stmt", r"^match = ", r"^match = dfa\(nfa\(expr\)\)$", "the matcher is the subset construction of the NFA of the parsed expression"),
+    G("C06", "content::parse_expr_atom.iteratee", "call", r"^stream\.err\('Mixing inline and block content'\)$", ["stream.inline is not None", "stream.inline != type.is_inline"], "mixing inline and block content is rejected"),
+    G("C06", "content::resolve_name", "call", r"^result\.append\(type\)$", ["name in type.groups"], "a group name selects exactly the node types whose (split) group list contains it"),
+    G("C06", "content::resolve_name", "call", r"^stream\.err\(", ["not result"], "an unknown name is rejected"),
+    G("C06 C15", "content::check_for_dead_ends", "stmt", r"^dead = False$", ["dead", "not (node.is_text or node.has_required_attrs())"], "a state is alive only if it is a valid end or a generatable node leaves it"),
+    G("C06 C15", "content::check_for_dead_ends", "call", r"^stream\.err\(", ["dead"], "a required position that only non-generatable nodes can fill is rejected"),
+    M("C06", "content::nfa.compile", ["expr['type'] == 'star'"], r"^loop = node\(\)$", "a star gets its own loop state (the repeated body must not loop on a state shared with alternatives)"),
+    M("C06", "content::nfa.compile", ["expr['type'] == 'star'"], r"^edge\(from_, loop\)$", "the star's loop state is entered by an epsilon edge from the start"),
+    M("C06", "content::nfa.compile", ["expr['type'] == 'plus'"], r"^loop = node\(\)$", "a plus gets its own loop state"),
+    G("C15", "content::ContentMatch.fill_before.search", "stmt", r"^found = search\(", ["not (type.is_text or type.has_required_attrs())", "next not in seen"], "only generatable node types are ever added to a filling, and no state is searched twice"),
+    F("C15", "content::ContentMatch.fill_before.search", "arg:1", r"^search\(next, ", r"^\[\*types, type\]$", "each search branch extends its own copy of the chosen types (a failed branch leaves nothing behind)"),
+    G("C15", "content::ContentMatch.fill_before.search", "ret", r"^Fragment\.from_\(", ["finished", ["not to_end", "finished.valid_end"]], "a filling is returned only if the following content then matches (up to a valid end when asked)"),
+    G("C15", "content::ContentMatch.compute_wrapping", "call", r"^active\.append\(", ["not type.is_leaf", "not type.has_required_attrs()", "type.name not in seen", ["not current['type']", "match.next[i].next.valid_end"]], "a wrapper candidate is generatable, not a leaf, new, and may hold the next wrapper as its only child"),
+    G("C15", "content::ContentMatch.compute_wrapping", "stmt", r"^seen\[type\.name\] = True$", ["not type.is_leaf", "not type.has_required_attrs()", "type.name not in seen", ["not current['type']", "match.next[i].next.valid_end"]], "a type is marked seen only when it is actually enqueued (marking it on a rejected edge hides a later valid chain)"),
+    G("C15", "content::ContentMatch.compute_wrapping", "ret", r"^list\(reversed\(result\)\)$", ["match.match_type(target)"], "a chain is returned only if its innermost wrapper accepts the target as first child"),
+    F("C15", "content::ContentMatch.compute_wrapping", "stmt", r"^current = ", r"^current = active\.pop\(0\)$", "breadth-first order (pop from the front) yields a shortest chain"),
+    G("C15", "content::ContentMatch.default_type", "ret", r"^type$", ["not (type.is_text or type.has_required_attrs())"], "the default type is generatable"),
+    G("C15", "content::ContentMatch.find_wrapping", "ret", r"^entry\.computed$", ["entry.target.name == target.name"], "a cached wrapping is reused only for the same target type"),
+    G("C15", "schema::NodeType.create_and_fill", "ret", r"^Node\(", ["after", "matched"], "create_and_fill builds a node only when the content matched and a closing fill exists"),
+    # ------------------------------------------------ model/diff.py (C20)
+    G("C20", "diff::find_diff_start", "stmt", r"^continue$", ["child_a == child_b"], "only identical children are skipped without comparison"),
+    G("C20", "diff::find_diff_start", "ret", r"^pos$", ["not child_a.same_markup(child_b)"], "a markup difference is reported at the child's start"),
+    G("C20", "diff::find_diff_start", "stmt", r"^inner = find_diff_start\(", [["child_a.content.size", "child_b.content.size"]], "descent happens whenever either child has content", forbid=("child_a.content.size", "child_b.content.size")),
+    G("C20", "diff::find_diff_end", "stmt", r"^inner = find_diff_end\(", [["child_a.content.size", "child_b.content.size"]], "descent happens whenever either child has content", forbid=("child_a.content.size", "child_b.content.size")),
+    G("C20", "diff::find_diff_end", "stmt", r"^continue$", ["child_a == child_b"], "only identical children are skipped without comparison"),
+    G("C20", "diff::find_diff_start", "expr", r"^None$", ["a.child_count == b.child_count", ["a.child_count == i", "b.child_count == i"]], "no difference is reported only when both fragments are exhausted together", min=1, max=1),
+    # ------------------------------------------------ model/from_dom.py (C19)
+    G("C19", "fdom::NodeContext.apply_pending", "stmt", r"^self\.active_marks = mark\.add_to_set\(self\.active_marks\)$", [["self.type is None", "self.type.allows_mark_type(mark.type)"], "not mark.is_in_set(self.active_marks)"], "a pending mark is activated in a typed context only if that node type allows it"),
+    G("C19", "fdom::ParseContext.insert_node", "stmt", r"^marks = mark\.add_to_set\(marks\)$", [["top.type is None", "top.type.allows_mark_type(mark.type)"]], "a node's own marks are kept only where the open node type allows them"),
+    G("C19", "fdom::ParseContext.remove_pending_mark", "stmt", r"^level\.active_marks = stash_mark\.add_to_set\(level\.active_marks\)$", ["stash_mark is not None", "level.type is not None", "level.type.allows_mark_type(stash_mark.type)"], "a stashed duplicate mark is re-activated only where the node type allows it"),
+    G("C19", "fdom::NodeContext.finish", "stmt", r"^content = content\.append\(", ["not open_end", "self.match is not None"], "every closed context is filled up to a valid end"),
+    G("C19", "fdom::ParseContext.insert_node", "call", r"^top\.content\.append\(node\.mark\(marks\)\)$", ["self.find_place(node)"], "every node the parser emits was placed through find_place"),
+    # ------------------------------------------------ JSON (C05)
+    G("C05", "repl::Slice.to_json", "expr", r"^self\.open_start$", ["self.open_start > 0"], "openStart is written exactly when it differs from the reader's default 0", exact=True, min=1) if False else G("C05", "repl::Slice.to_json", "stmt", r"^json = \{\*\*json, 'openStart': self\.open_start\}$", ["self.open_start > 0", "self.content.size"], "openStart is written exactly when it differs from the reader's default 0", exact=True),
+    G("C05", "repl::Slice.to_json", "stmt", r"^json = \{\*\*json, 'openEnd': self\.open_end\}$", ["self.open_end > 0", "self.content.size"], "openEnd is written exactly when it differs from the reader's default 0", exact=True),
+    G("C05", "rstep::ReplaceStep.to_json", "stmt", r"^json_data = \{\*\*json_data, 'structure': True\}$", ["self.structure"], "the structure flag is written whenever it is set (the reader defaults it to False)", exact=True),
+    G("C05", "rstep::ReplaceStep.to_json", "stmt", r"^json_data = \{\*\*json_data, 'slice': self\.slice\.to_json\(\)\}$", ["self.slice.size"], "the slice is written whenever it is non-empty (the reader defaults to Slice.empty)", exact=True),
+    G("C05", "rstep::ReplaceAroundStep.to_json", "stmt", r"^json_data = \{\*\*json_data, 'structure': True\}$", ["self.structure"], "the structure flag is written whenever it is set", exact=True),
+    G("C05", "rstep::ReplaceAroundStep.to_json", "stmt", r"^json_data = \{\*\*json_data, 'slice': self\.slice\.to_json\(\)\}$", ["self.slice.size"], "the slice is written whenever it is non-empty", exact=True),
 ]
